@@ -48,9 +48,13 @@ func safe[T any](f func() (T, error)) (out T, err error) {
 	return f()
 }
 
+// putterFill: what the destination buffers handed to the encoders contain beforehand (an encoding
+// is determined by the value alone, whatever the destination held)
+var putterFill byte
+
 func putter(n int, put func([]byte) error) ([]byte, error) {
 	return safe(func() ([]byte, error) {
-		b := make([]byte, n)
+		b := bytes.Repeat([]byte{putterFill}, n)
 		if err := put(b); err != nil {
 			return nil, err
 		}
@@ -323,7 +327,7 @@ func RunC18(run *vk.Run) {
 	run.AddTLC(res)
 	run.Assumptions = append(run.Assumptions, "field values are boundary classes (0, 1, max, max+1 where the Go type is wider) plus seeded random in-range values, not exhaustive",
 		"a panic of an exported decoder on a truncated buffer is not an acceptance; it is counted (truncated_panics) but is C07/C08's topic",
-		"PAGE_INFO and the TDX extension buffers have no exported codec; their layouts are bound through the C04 / C05 digest oracles")
+		"PAGE_INFO (beyond its zero value) and the TDX extension buffers have no exported codec; their layouts are bound through the C04 / C05 digest oracles", "decoders that read a record at an offset of a larger buffer are prefix decoders (Abi.tla ExactDecoders lists the size-exact ones): for them the accepted byte string is the record's own length")
 	ads := adapters(e)
 	truncPanics := 0
 	type pick struct {
@@ -400,6 +404,12 @@ func RunC18(run *vk.Run) {
 					if !sameValues(got, stripMbz(e, p.S, v)) {
 						viol("extended-misdecoded", "input extended by one byte decodes to other values")
 					}
+					if e.exactDecoder(p.S) {
+						viol("extended-accepted", "the %d-byte encoding followed by one more byte is accepted by the size-exact decoder: the extra byte is dropped, so the accepted string does not re-encode to itself", t.Size)
+					}
+				} else if !e.exactDecoder(p.S) && !strings.HasPrefix(err.Error(), "PANIC") {
+					run.AddDrift(1)
+					fmt.Printf("DRIFT property=C18 %s: Abi.tla lists the decoder as a prefix decoder, the code refuses a longer buffer (%v)\n", p.S, err)
 				}
 			}
 		}
@@ -431,11 +441,22 @@ func RunC18(run *vk.Run) {
 			}
 		}
 	}
+	// PAGE_INFO has no exported constructor; its zero value must still encode to the table's all-zero
+	// layout whatever the destination held
+	for _, fill := range []byte{0, 0xff, 0x5a} {
+		dst := bytes.Repeat([]byte{fill}, e.Tables["PageInfo"].Size)
+		err := (&sev.PageInfo{}).Put(dst)
+		if err != nil || !bytes.Equal(dst, e.Encode("PageInfo", Values{})) {
+			run.Violation("stale-destination-bytes:PageInfo", fmt.Sprintf("PAGE_INFO zero value encoded into a destination pre-filled with %#x is not the all-zero ABI layout (err=%v)", fill, err), map[string]any{"fill": fill, "got": fmt.Sprintf("%x", dst)})
+			break
+		}
+		run.Case(fmt.Sprintf("pageinfo-dirty:%d", fill), true)
+	}
 	run.Extra["truncated_panics"] = truncPanics
 	checkTCG(run, e, r)
 	checkHobGuid(run)
 	run.Exhaustive = true
-	run.Rule = "for every structure table of Abi.tla with an exported codec, every (field, boundary class) pair emitted by TLC is executed (one field off-nominal at a time) and seeded random in-range values are round-tripped: real encoding = table-driven reference encoding, exact size, decode(encode(v)) = v, out-of-range / non-zero reserved / truncated refused; the TCG event records are checked against the grammar tables (size-prefixed parts, terminators, padding)"
+	run.Rule = "for every structure table of Abi.tla with an exported codec, every (field, boundary class) pair emitted by TLC is executed (one field off-nominal at a time) and seeded random in-range values are round-tripped: real encoding = table-driven reference encoding, exact size, decode(encode(v)) = v, out-of-range / non-zero reserved / truncated refused, extended inputs refused by the size-exact decoders, encodings independent of what the destination held; the TCG event records are checked against the grammar tables (size-prefixed parts, terminators, padding)"
 }
 
 func stripMbz(e *Exported, s string, v Values) Values {
@@ -465,6 +486,15 @@ func checkRoundTrip(e *Exported, ad adapter, s string, v Values, viol func(key, 
 		}
 		viol("layout-wrong", "encoding differs from the ABI layout at offset %#x (got %x, want %x)", off, b[off:minInt(off+8, len(b))], ref[off:minInt(off+8, len(ref))])
 		return
+	}
+	for _, fill := range []byte{0xff, 0x5a} {
+		putterFill = fill
+		b2, err2 := ad.enc(v, t.Size)
+		putterFill = 0
+		if err2 != nil || !bytes.Equal(b2, ref) {
+			viol("stale-destination-bytes", "encoding into a destination pre-filled with %#x differs from the ABI layout (err=%v): bytes of the destination show through", fill, err2)
+			break
+		}
 	}
 	if ad.dec != nil {
 		got, err := ad.dec(b)
@@ -650,6 +680,75 @@ func checkTCG(run *vk.Run, e *Exported, r *rand.Rand) {
 		run.Infra(fmt.Errorf("Abi.tla emitted only %d cstr1 rows", nRows))
 		return
 	}
+	// tagged digests and GUID hand-off blocks: the size rules of Abi.tla's TaggedRows / GuidHobRows
+	nTagged, nHob := 0, 0
+	for _, row := range e.Parts {
+		switch row.Part {
+		case "tagged":
+			nTagged++
+			alg, n := uint16(row.Payload[0]), row.Payload[1]
+			dg := randBytes(r, n)
+			var w bytes.Buffer
+			_, merr := safe(func() (int, error) { return 0, (&eventlog.TaggedDigest{AlgID: alg, Digest: dg}).Marshal(&w) })
+			switch {
+			case merr == nil && !row.Accept:
+				viol("strictness:tagged-digest", "a %d-byte digest tagged with algorithm %#x is encoded (%d bytes written) instead of refused", n, alg, w.Len())
+			case merr != nil && row.Accept:
+				viol("roundtrip:tagged-digest", "a %d-byte digest tagged with algorithm %#x is refused: %v", n, alg, merr)
+			case merr == nil:
+				want := append(le.AppendUint16(nil, alg), dg...)
+				if !bytes.Equal(w.Bytes(), want) {
+					viol("layout:tagged-digest", "tagged digest (algorithm %#x) encodes to %d bytes that are not id + digest", alg, w.Len())
+				}
+				back := &eventlog.TaggedDigest{}
+				if _, err := safe(func() (int, error) { return 0, back.Unmarshal(bytes.NewReader(w.Bytes())) }); err != nil || back.AlgID != alg || !bytes.Equal(back.Digest, dg) {
+					viol("roundtrip:tagged-digest", "tagged digest (algorithm %#x) does not decode to itself (%v)", alg, err)
+				}
+			}
+			// inside an event: an event carrying a digest of the wrong length must not encode to something
+			// that decodes to a different event
+			ev := &eventlog.TCGPCREvent2{PCRIndex: 1, EventType: 2, Digests: eventlog.Uint32SizedArrayT[*eventlog.TaggedDigest]{Array: []*eventlog.TaggedDigest{{AlgID: alg, Digest: dg}}},
+				EventData: eventlog.TCGEventData{Event: &eventlog.UnknownEvent{Data: []byte("x")}}}
+			var we bytes.Buffer
+			if _, err := safe(func() (int, error) { return 0, ev.Marshal(&we) }); err == nil && !row.Accept {
+				viol("strictness:tagged-digest", "a TCG_PCR_EVENT2 with a %d-byte digest tagged %#x is encoded instead of refused", n, alg)
+			}
+			run.Case(fmt.Sprintf("tagged:%d:%d", alg, n), true)
+		case "guidhob":
+			nHob++
+			n := row.Payload[0]
+			data := make([]byte, n)
+			for i := range data {
+				data[i] = byte(i*3 + 1)
+			}
+			var w bytes.Buffer
+			var cnt int64
+			_, herr := safe(func() (int, error) {
+				h, err := oabi.CreateEFIHOBGUID(uuid.MustParse("11112222-3333-4444-5555-666677778888"), data)
+				if err != nil {
+					return 0, err
+				}
+				cnt, err = h.WriteTo(&w)
+				return 0, err
+			})
+			switch {
+			case herr == nil && !row.Accept:
+				viol("strictness:guid-hob", "a GUID hand-off block with %d bytes of data (more than a 16-bit length can describe) is written: %d bytes, returned count %d, encoded length %d", n, w.Len(), cnt, hobLen(w.Bytes()))
+			case herr != nil && row.Accept:
+				viol("roundtrip:guid-hob", "a GUID hand-off block with %d bytes of data is refused: %v", n, herr)
+			case herr == nil:
+				want := row.Value[0]
+				if w.Len() != want || int(cnt) != want || hobLen(w.Bytes()) != want {
+					viol("layout:guid-hob", "GUID hand-off block with %d bytes of data: %d bytes written, returned count %d, encoded length %d; the table says %d", n, w.Len(), cnt, hobLen(w.Bytes()), want)
+				}
+			}
+			run.Case(fmt.Sprintf("guidhob:%d", n), true)
+		}
+	}
+	if nTagged < 30 || nHob < 10 {
+		run.Infra(fmt.Errorf("Abi.tla emitted %d tagged and %d guidhob rows", nTagged, nHob))
+		return
+	}
 	// C strings: missing terminator / length byte larger than what is present
 	for _, bad := range [][]byte{{3, 'a', 'b', 'c'}, {0}, {5, 'a', 0}} {
 		c := &eventlog.ByteSizedCStr{}
@@ -737,4 +836,12 @@ func randBytes(r *rand.Rand, n int) []byte {
 		b[i] = byte(1 + r.Intn(255))
 	}
 	return b
+}
+
+// hobLen reads the 16-bit HobLength of an encoded hand-off block (-1 if too short).
+func hobLen(b []byte) int {
+	if len(b) < 4 {
+		return -1
+	}
+	return int(binary.LittleEndian.Uint16(b[2:4]))
 }
